@@ -501,6 +501,8 @@ def rule6(ctx, rep):
             if not grows and not rebs:
                 continue
             f = fo[0].func
+            if shared.inlined_helper(prog, ctx.cg, f):
+                continue  # its body is analysed where it is called
             rep.analysed(f)
             fl = _Pending(prog, f, fo)
             out = fl.run(f.node, frozenset())
